@@ -113,8 +113,12 @@ func TestVerifDriver(t *testing.T) {
 			o.Path = verifHex(r.URL.Path)
 			o.Clean = verifHex(path.Clean(r.URL.Path))
 			rec := httptest.NewRecorder()
+			// what the client receives: status and headers as written on the wire (Result() snapshots the
+			// header map at WriteHeader; headers set afterwards are lost)
+			var wire http.Header
 			if panicked, _ := verifdrv.Catch(func() { rt.ServeHTTP(rec, r) }); !panicked {
-				o.Status = rec.Code
+				res := rec.Result()
+				o.Status, wire = res.StatusCode, res.Header
 			}
 			o.Hids = append(o.Hids, hids...)
 			o.NF = nf
@@ -122,7 +126,7 @@ func TestVerifDriver(t *testing.T) {
 				o.Vars = append(o.Vars, [2]string{k, verifHex(v)})
 			}
 			sort.Slice(o.Vars, func(a, b int) bool { return o.Vars[a][0] < o.Vars[b][0] })
-			for _, h := range rec.Header().Values(allowHeader) {
+			for _, h := range wire.Values(allowHeader) {
 				o.Allow = append(o.Allow, strings.Split(h, ", ")...)
 			}
 			sort.Strings(o.Allow)
